@@ -145,7 +145,7 @@ def setup(c):
 
 NORMS = ['biased', 'unbiased', 'coeff', None]
 METHODS = ['autocorrelation', 'prewindowed', 'postwindowed', 'covariance', 'modified']
-KINDS = ['noise', 'tones', 'int', 'const', 'trend', 'dyn', 'alt', 'impulse']
+KINDS = ['noise', 'tones', 'int', 'const', 'trend', 'dyn', 'alt', 'impulse', 'sparse']
 
 
 def cases(c):
